@@ -35,7 +35,10 @@ func (pc ParseContext) unpackMacro(
 	if err != nil {
 		return Macro{ruleName: ""}, err
 	}
-	macroTuple := macroValue.(rel.Tuple)
+	macroTuple, is := macroValue.(rel.Tuple)
+	if !is {
+		return Macro{}, fmt.Errorf("macro must be a tuple, not %s", rel.ValueTypeAsString(macroValue))
+	}
 
 	grammar := macroTuple
 	if macroTuple.HasName("@grammar") {
